@@ -136,10 +136,14 @@ def pydoctor_run(files: Dict[str, Union[str, bytes]], roots: Sequence[str], args
 
 
 def pydoctor_child(srcdir: str, roots: Sequence[str], outdir: str, args: Sequence[str] = (),
-                   env: Optional[Dict[str, str]] = None, timeout: int = 300, cwd: Optional[str] = None) -> Tuple[int, str, str]:
+                   env: Optional[Dict[str, Any]] = None, timeout: int = 300, cwd: Optional[str] = None) -> Tuple[int, str, str]:
     """`python -m pydoctor` as a separate process (C18, byte identity needs fresh global counters)."""
     e = dict(os.environ)
-    e.update(env or {})
+    for k, v in (env or {}).items():
+        if v is None:
+            e.pop(k, None)
+        else:
+            e[k] = v
     argv = [PY, "-m", "pydoctor"] + list(args) + ["--html-output=" + outdir] + [os.path.join(srcdir, r) for r in roots]
     p = subprocess.run(argv, env=e, cwd=cwd or srcdir, capture_output=True, text=True, timeout=timeout, errors="replace")
     return p.returncode, p.stdout, p.stderr
